@@ -166,6 +166,16 @@ def g_midpoints(F, rng, tier, nexp=None, nrand=1):
     return out
 
 
+def g_low_decade(F, rng, tier, ndecades, per_decade):
+    """G9: parse inputs around midpoints that start low in their decade (see low_decade_midpoints)"""
+    out = []
+    for bits in low_decade_midpoints(F, rng, ndecades, per_decade):
+        for r in midpoint_variants(F, bits, rng, tier):
+            r["tag"] = "G9:" + r["tag"].split(":")[1]
+            out.append(r)
+    return out
+
+
 def g_floats_exact(F, rng, n):
     """exactly representable values (the float itself, not the midpoint)"""
     out = []
@@ -233,6 +243,8 @@ def g_extremes(F, rng, big=100000):
         out.append(mk(F.name, "", "", e, "G5:zero"))
         out.append(mk(F.name, "", "0", e, "G5:zero"))
         out.append(mk(F.name, "", "000", e, "G5:zero"))
+        out.append(mk(F.name, "", "0" * 25, e, "G5:zero"))
+        out.append(mk(F.name, "", "0" * 800, e, "G5:zero"))
         out.append(mk(F.name, "123456789012345678901234567890", "5", e, "G5:exp"))
         out.append(mk(F.name, "", "00000000000000000000000123", e, "G5:exp"))
     for n in (big, big + 1, big - 1, 5000):
@@ -302,6 +314,43 @@ def dedup(recs):
 
 def rng_for(name):
     return random.Random("%d/%s" % (core.seed(), name))
+
+
+# ------------------------- midpoints whose decimal expansion starts low in its decade
+
+def float_below(F, num, den):
+    """bits of the largest finite float <= num/den (exact rational arithmetic, binary search on the bit pattern)"""
+    lo, hi = 0, F.infbits - 1
+    while lo < hi:
+        mid = (lo + hi + 1) // 2
+        m, e = F.decode(mid)
+        # m * 2^e <= num/den ?
+        le = (m << e) * den <= num if e >= 0 else m * den <= num << (-e)
+        if le:
+            lo = mid
+        else:
+            hi = mid - 1
+    return lo
+
+
+def low_decade_midpoints(F, rng, ndecades, per_decade):
+    """float bit patterns whose upper midpoint starts with digits 1.00 .. 1.15 in its decade: there the first 19
+    digits are a small integer (10^18 .. 1.15*10^18), i.e. one unit of a truncated significand is many units of
+    the normalised 64-bit significand -- the weak spot of error-bounded algorithms (finding F1)."""
+    kmin = -((-F.etiny * 30103) // 100000) - 1            # decade of the smallest subnormal
+    kmax = (F.emax * 30103) // 100000
+    sub_hi = -(((-(F.etiny + F.mbits)) * 30103) // 100000)  # decades up to the smallest normal: always included
+    ks = sorted(set(range(kmin, sub_hi + 2)) | set(rng.sample(range(sub_hi + 2, kmax + 1), min(ndecades, kmax - sub_hi - 1))))
+    out = []
+    for k in ks:
+        for _ in range(per_decade):
+            x = rng.randrange(10 ** 6, 115 * 10 ** 4)      # 1.000000 .. 1.149999
+            num, den = (x * 10 ** k, 10 ** 6) if k >= 0 else (x, 10 ** (6 - k))
+            b = float_below(F, num, den)
+            if 0 <= b < F.infbits - 1:
+                out.append(b)
+                out.append(b + rng.choice([1, 2, 3]))
+    return sorted(set(b for b in out if b < F.infbits - 1))
 
 
 # ------------------------------------------------ exact ties with <= 19 digits
@@ -413,6 +462,16 @@ def g_moderate(F, rng, tier):
                 if len(ds2) <= 19:
                     add(int(ds2), e2, False, "G3:float")
                     add(int(ds2), e2, True, "G3:float-trunc")
+    # midpoints that start low in their decade (19-digit prefix 10^18 .. 1.15*10^18), every subnormal decade included
+    for bits in low_decade_midpoints(F, rng, 25 if q else 400, 2 if q else 6):
+        M, k = F.midpoint(bits)
+        ds, e10 = exact_decimal(M, k)
+        n = len(ds)
+        if n >= 19:
+            w = int(ds[:19])
+            for dw in (0, 1, -1):
+                add(w + dw, e10 + n - 19, True, "G3:lowdecade-trunc")
+                add(w + dw, e10 + n - 19, False, "G3:lowdecade")
     ws = [1, 2, 3, 5, 7, 9, 10, U64, U64 - 1, 1 << 63, (1 << 63) - 1, (1 << 63) + 1, 10 ** 19, 10 ** 19 - 1,
           (1 << F.p) - 1, 1 << F.p, (1 << F.p) + 1, (1 << (F.p + 1)) + 1, 1 << 32, (1 << 32) - 1]
     ws += [10 ** k for k in range(1, 20)] + [10 ** k - 1 for k in range(1, 20)]
@@ -716,6 +775,13 @@ def g_garbage(rng, tier):
         for e in (0, -30, 30):
             out.append({"fmt": fmt, "int": [{"d": [48], "n": 30}, {"d": [49], "n": 1}], "frac": [{"d": [48], "n": 25}], "exp": e, "raw": True, "tag": "C08:zeros"})
             out.append({"fmt": fmt, "int": [{"d": [48], "n": 1}], "frac": [{"d": [48], "n": 19}, {"d": [49], "n": 1}], "exp": e, "raw": True, "tag": "C08:zeros"})
+    # nothing but zeros (leading-zero precondition violated): the big-integer path may be entered with an empty integer
+    for n in (19, 20, 21, 32, 100, 770, 800):
+        for m in (0, 1, 25):
+            for e in (0, 5, 100, 280, 308, -5, -100, -342, 17, 38):
+                for fmt in ("f64", "f32"):
+                    out.append({"fmt": fmt, "int": [{"d": [48], "n": n}], "frac": ([{"d": [48], "n": m}] if m else []), "exp": e, "raw": True,
+                                "tag": "C08:all-zeros"})
     # random bytes, every value, lengths to 10^4
     for _ in range(300 if q else 10000):
         li = rng.choice([0, 1, 5, 19, 20, 100, 1000, 10000])
